@@ -83,7 +83,23 @@ fn c04(class: &'static str, msg: String) -> Violation {
 
 /// Read one tree back, checking the C04 structural invariants on the way.
 /// `budget` bounds the number of nodes (cycle detection).
+thread_local! {
+    static SOFT: std::cell::RefCell<Vec<Violation>> = std::cell::RefCell::new(Vec::new());
+}
+/// disagreements of the convenience accessors noticed by `read_tree_soft` since the last call:
+/// they say something about an accessor, not about the tree, so the walk goes on and the
+/// simulation step is not abandoned because of them
+pub fn take_soft() -> Vec<Violation> {
+    SOFT.with(|s| std::mem::take(&mut *s.borrow_mut()))
+}
+
 pub fn read_tree(x: &Xot, root: Node, check_adjacent: bool, budget: &mut usize) -> Result<RNode, Violation> {
+    read_tree_mode(x, root, check_adjacent, budget, false)
+}
+pub fn read_tree_soft(x: &Xot, root: Node, check_adjacent: bool, budget: &mut usize) -> Result<RNode, Violation> {
+    read_tree_mode(x, root, check_adjacent, budget, true)
+}
+fn read_tree_mode(x: &Xot, root: Node, check_adjacent: bool, budget: &mut usize, soft: bool) -> Result<RNode, Violation> {
     if x.is_removed(root) {
         return Err(c04("removed-node-handed-out", format!("root {:?} is removed", root)));
     }
@@ -97,7 +113,7 @@ pub fn read_tree(x: &Xot, root: Node, check_adjacent: bool, budget: &mut usize) 
     if x.ancestors(root).take(3).count() != 1 {
         return Err(c04("relations", format!("ancestors of parentless {:?} is not just itself", root)));
     }
-    let r = read_node(x, root, true, check_adjacent, budget)?;
+    let r = read_node(x, root, true, check_adjacent, budget, soft)?;
     // all_descendants must be the preorder of what we read
     let mut flat = vec![];
     flatten(&r, &mut flat);
@@ -118,7 +134,7 @@ pub fn flatten(r: &RNode, out: &mut Vec<Node>) {
     }
 }
 
-fn read_node(x: &Xot, n: Node, is_root: bool, check_adjacent: bool, budget: &mut usize) -> Result<RNode, Violation> {
+fn read_node(x: &Xot, n: Node, is_root: bool, check_adjacent: bool, budget: &mut usize, soft: bool) -> Result<RNode, Violation> {
     if *budget == 0 {
         return Err(c04("cycle", format!("more than {} nodes reachable: cycle at {:?}", NODE_LIMIT, n)));
     }
@@ -226,21 +242,30 @@ fn read_node(x: &Xot, n: Node, is_root: bool, check_adjacent: bool, budget: &mut
             }
         }
     }
-    accessor_agreement(x, n, vt, &attr_nodes, &ns_nodes, &kid_nodes)?;
+    if let Err(v) = accessor_agreement(x, n, vt, &attr_nodes, &ns_nodes, &kid_nodes) {
+        if !soft {
+            return Err(v);
+        }
+        SOFT.with(|s| {
+            if s.borrow().len() < 4 {
+                s.borrow_mut().push(v);
+            }
+        });
+    }
     // (reverse_children is deliberately not used: with indextree 4.7.2 `children().rev()` never
     // ends for >= 2 children; traversal axes belong to C07, which is not claimed — DESIGN §7 O2)
     // recurse
     let mut ns = vec![];
     for c in &ns_nodes {
-        ns.push(read_node(x, *c, false, check_adjacent, budget)?);
+        ns.push(read_node(x, *c, false, check_adjacent, budget, soft)?);
     }
     let mut attrs = vec![];
     for c in &attr_nodes {
-        attrs.push(read_node(x, *c, false, check_adjacent, budget)?);
+        attrs.push(read_node(x, *c, false, check_adjacent, budget, soft)?);
     }
     let mut kids = vec![];
     for c in &kid_nodes {
-        kids.push(read_node(x, *c, false, check_adjacent, budget)?);
+        kids.push(read_node(x, *c, false, check_adjacent, budget, soft)?);
     }
     // uniqueness
     for i in 0..attrs.len() {
@@ -446,7 +471,7 @@ impl World {
         let mut out = vec![];
         let check_adj = !self.model.cons_ever_off;
         for r in roots {
-            out.push(read_tree(&self.xot, *r, check_adj, &mut budget)?);
+            out.push(read_tree_soft(&self.xot, *r, check_adj, &mut budget)?);
         }
         Ok(out)
     }
@@ -511,7 +536,7 @@ impl World {
                     format!("model says {:?} is parentless, real has parent {:?}", rl, self.xot.parent(rn).and_then(|p| self.rev.get(&p))),
                 ));
             }
-            let rt = read_tree(&self.xot, rn, check_adj, &mut budget)?;
+            let rt = read_tree_soft(&self.xot, rn, check_adj, &mut budget)?;
             self.cmp_rec(*rl, &rt, &mut seen_real)?;
         }
         // liveness of every handle ever handed out
@@ -738,9 +763,9 @@ pub fn real_tree_matches_model(w: &World, model: &Model, root: Lid) -> Result<()
     let mut budget = NODE_LIMIT;
     // read the subtree: temporarily treat h as root only if it is one
     let t = if w.xot.parent(h).is_none() {
-        read_tree(&w.xot, h, false, &mut budget).map_err(|v| v.msg)?
+        read_tree_soft(&w.xot, h, false, &mut budget).map_err(|v| v.msg)?
     } else {
-        read_node(&w.xot, h, false, false, &mut budget).map_err(|v| v.msg)?
+        read_node(&w.xot, h, false, false, &mut budget, true).map_err(|v| v.msg)?
     };
     fn rec(w: &World, model: &Model, l: Lid, r: &RNode) -> Result<(), String> {
         if w.handles.get(&l) != Some(&r.node) {
